@@ -132,6 +132,8 @@ impl Case {
                 add(cs, "crash_with_call_in_flight", s.crash_inflight);
                 add(cs, "crash_inside_huge_split", s.crash_in_split);
                 add(cs, "exhaust_phases", s.exhausts);
+                add(cs, "fault_restart_in_place", s.reinits);
+                add(cs, "fault_warm_handoff", s.handoffs);
                 out.hash = r.hash;
                 out.nontrivial = s.state_changing > 0 || s.badargs > 0 || s.changes_ok > 0;
                 out.state_hashes = r.state_hashes;
